@@ -5,8 +5,8 @@ Model of poly's feature locations (property C02):
 
   poly.Location                          ↦ `PLoc`
   poly.getFeatureSequence / GetSequence  ↦ `getSeq`
-  genbank.parseLocation                  ↦ `parseLocation`   (as it is after the fix: commits
-                                            38778ae "single base" and 90c4195 "top-level commas")
+  genbank.parseLocation                  ↦ `parseLocation`   (as it is after the fix: commits 38778ae "single base",
+                                            90c4195 "top-level commas", ec3cbb7 "complement of complement")
   genbank.BuildLocationString            ↦ `buildLoc`
 
 Transcribed statement by statement.  Go `int` is modelled as the unbounded `Int` (coordinates
@@ -150,6 +150,13 @@ def splitTopList (s : Str) : List Str :=
 
 /-! ### parseLocation -/
 
+/-- the keywords, as byte lists (explicit lists rather than `String.toList` of a literal, so
+that proofs never have to evaluate `String` primitives) -/
+def kwJoin : Str := ['j', 'o', 'i', 'n']
+def kwComplement : Str := ['c', 'o', 'm', 'p', 'l', 'e', 'm', 'e', 'n', 't']
+def joinOpen : Str := ['j', 'o', 'i', 'n', '(']
+def complOpen : Str := ['c', 'o', 'm', 'p', 'l', 'e', 'm', 'e', 'n', 't', '(']
+
 def mapOutcome {α β : Type} (f : α → Outcome β) : List α → Outcome (List β)
   | [] => .ok []
   | x :: xs => (f x).bind fun y => (mapOutcome f xs).bind fun ys => .ok (y :: ys)
@@ -187,12 +194,16 @@ def parseLocF : Nat → Str → Outcome PLoc
       let firstOuterParentheses := optIdx (indexOf '(' s)
       (slice s (firstOuterParentheses + 1) (optIdx (lastIndexOf ')' s))).bind fun expression =>
       (slice s 0 firstOuterParentheses).bind fun command =>
-      if command = "join".toList then
+      if command = kwJoin then
         (mapOutcome (parseLocF f) (splitTopList expression)).bind fun subs =>
           finish s { join := true, subs := subs }
-      else if command = "complement".toList then
+      else if command = kwComplement then
         (parseLocF f expression).bind fun subLocation =>
-          finish s { subs := [{ subLocation with complement := true }] }
+          if subLocation.complement then
+            -- the complement of a complement keeps a node of its own
+            finish s { complement := true, subs := [subLocation] }
+          else
+            finish s { subs := [{ subLocation with complement := true }] }
       else
         finish s {}
 
@@ -218,16 +229,22 @@ end
 
 mutual
 /-- `BuildLocationString`.  (The Go function recurses on the same node with `Complement`
-cleared; that single step is unfolded here.) -/
+cleared; that single step is unfolded here.)  After the complement: a join — or any node with
+more than one sublocation — is written as `join(…)`, a node that only wraps one sublocation as
+that sublocation, anything else as a span. -/
 def buildLoc : PLoc → Str
   | ⟨start, stop, complement, join, five, three, subs⟩ =>
     let inner : Str :=
       if join then
-        trimComma ("join(".toList ++ buildSubs subs) ++ [')']
+        trimComma (joinOpen ++ buildSubs subs) ++ [')']
       else
-        (if five then ['<'] else []) ++ (itoaInt (start + 1) ++ ['.', '.'] ++ itoaInt stop)
-          ++ (if three then ['>'] else [])
-    if complement then "complement(".toList ++ inner ++ [')'] else inner
+        match subs with
+        | [] =>
+          (if five then ['<'] else []) ++ (itoaInt (start + 1) ++ ['.', '.'] ++ itoaInt stop)
+            ++ (if three then ['>'] else [])
+        | [x] => buildLoc x
+        | x :: y :: zs => trimComma (joinOpen ++ buildSubs (x :: y :: zs)) ++ [')']
+    if complement then complOpen ++ inner ++ [')'] else inner
 /-- the loop `locationString += BuildLocationString(sublocation) + ","` -/
 def buildSubs : List PLoc → Str
   | [] => []
